@@ -9,9 +9,11 @@ package main
 
 import (
 	"context"
+	"encoding/json"
 	"fmt"
 	"os"
 	"strings"
+	"time"
 
 	"github.com/ErdemOzgen/blackdagger/internal/agent"
 	"github.com/ErdemOzgen/blackdagger/internal/dag"
@@ -25,25 +27,25 @@ var names = []string{"s0", "s1", "s2", "s3", "s4"}
 
 // graph: adj[i] = bitmask of j such that step i depends on step j.
 type graph struct {
-	n        int
-	adj      []uint64
-	order    []int // order in which steps are listed
-	dangling int   // -1 or index of step that gets an unknown dependency name
-	dpos     int   // position of the dangling name inside that step's depends list
-	fam      string
+	N        int      `json:"n"`
+	Adj      []uint64 `json:"adj"`
+	Order    []int    `json:"order"`    // order in which steps are listed
+	Dangling int      `json:"dangling"` // -1 or index of step that gets an unknown dependency name
+	Dpos     int      `json:"dpos"`     // position of the dangling name inside that step's depends list
+	Fam      string   `json:"fam"`
 }
 
 func (g graph) steps() []dag.Step {
-	steps := make([]dag.Step, 0, g.n)
-	for _, i := range g.order {
+	steps := make([]dag.Step, 0, g.N)
+	for _, i := range g.Order {
 		var deps []string
-		for j := 0; j < g.n; j++ {
-			if g.adj[i]>>uint(j)&1 == 1 {
+		for j := 0; j < g.N; j++ {
+			if g.Adj[i]>>uint(j)&1 == 1 {
 				deps = append(deps, name(j))
 			}
 		}
-		if g.dangling == i {
-			p := g.dpos
+		if g.Dangling == i {
+			p := g.Dpos
 			if p > len(deps) {
 				p = len(deps)
 			}
@@ -63,16 +65,16 @@ func name(i int) string {
 
 func (g graph) String() string {
 	var sb strings.Builder
-	fmt.Fprintf(&sb, "%s n=%d order=%v", g.fam, g.n, g.order)
-	for i := 0; i < g.n; i++ {
+	fmt.Fprintf(&sb, "%s n=%d order=%v", g.Fam, g.N, g.Order)
+	for i := 0; i < g.N; i++ {
 		var deps []string
-		for j := 0; j < g.n; j++ {
-			if g.adj[i]>>uint(j)&1 == 1 {
+		for j := 0; j < g.N; j++ {
+			if g.Adj[i]>>uint(j)&1 == 1 {
 				deps = append(deps, name(j))
 			}
 		}
-		if g.dangling == i {
-			deps = append(deps, fmt.Sprintf("ghost@%d", g.dpos))
+		if g.Dangling == i {
+			deps = append(deps, fmt.Sprintf("ghost@%d", g.Dpos))
 		}
 		if len(deps) > 0 {
 			fmt.Fprintf(&sb, " %s<-[%s]", name(i), strings.Join(deps, ","))
@@ -83,12 +85,12 @@ func (g graph) String() string {
 
 // refCyclic: independent reference, iterative colouring DFS.
 func (g graph) refCyclic() bool {
-	color := make([]int8, g.n)
+	color := make([]int8, g.N)
 	var visit func(i int) bool
 	visit = func(i int) bool {
 		color[i] = 1
-		for j := 0; j < g.n; j++ {
-			if g.adj[i]>>uint(j)&1 == 0 {
+		for j := 0; j < g.N; j++ {
+			if g.Adj[i]>>uint(j)&1 == 0 {
 				continue
 			}
 			if color[j] == 1 {
@@ -101,7 +103,7 @@ func (g graph) refCyclic() bool {
 		color[i] = 2
 		return false
 	}
-	for i := 0; i < g.n; i++ {
+	for i := 0; i < g.N; i++ {
 		if color[i] == 0 && visit(i) {
 			return true
 		}
@@ -151,18 +153,18 @@ func (c *checker) check(g graph) {
 	}
 	res := c.res
 	res.Evaluations++
-	wantErr := g.dangling >= 0 || g.refCyclic()
+	wantErr := g.Dangling >= 0 || g.refCyclic()
 	_, err := scheduler.NewExecutionGraph(venv.Quiet, g.steps()...)
 	gotErr := err != nil
-	class := fmt.Sprintf("%s/n=%d/refused=%v/dangling=%v", g.fam, g.n, wantErr, g.dangling >= 0)
+	class := fmt.Sprintf("%s/n=%d/refused=%v/dangling=%v", g.Fam, g.N, wantErr, g.Dangling >= 0)
 	c.classes[class]++
 	edges := 0
-	for _, a := range g.adj {
+	for _, a := range g.Adj {
 		for ; a != 0; a &= a - 1 {
 			edges++
 		}
 	}
-	if edges > 0 || g.dangling >= 0 {
+	if edges > 0 || g.Dangling >= 0 {
 		res.Nontrivial(vlib.Hash(g.String()))
 	}
 	if c.idx%50021 == 1 || (c.idx < 3000 && c.idx%577 == 0) {
@@ -174,7 +176,7 @@ func (c *checker) check(g graph) {
 			kind = "refused-well-formed"
 		}
 		why := "cycle"
-		if g.dangling >= 0 {
+		if g.Dangling >= 0 {
 			why = "dangling"
 		}
 		if !wantErr {
@@ -199,13 +201,42 @@ func (c *checker) agentRun(g graph) {
 	nm := fmt.Sprintf("g%d", c.agentN)
 	d := c.env.DAG(nm, g.steps()...)
 	d.HandlerOn = dag.HandlerOn{Exit: ptr(vexec.Step("onExit")), Failure: ptr(vexec.Step("onFailure"))}
-	before := venv.Files(c.env.Root)
+	before := venv.Files(c.env.Data)
 	a := c.env.Agent(fmt.Sprintf("req-%d", c.agentN), d, &agent.Options{})
-	err := a.Run(context.Background())
+	wantRefused := g.Dangling >= 0 || g.refCyclic()
+	if _, gerr := scheduler.NewExecutionGraph(venv.Quiet, g.steps()...); gerr == nil && wantRefused {
+		// running an admitted cyclic graph would never end; the admission violation is reported instead
+		res.Violate("C14/agent-run/ill-formed-graph-admitted", fmt.Sprintf("graph %s admitted by NewExecutionGraph; agent.Run not attempted", g), map[string]any{"graph": g, "agent": true})
+		return
+	}
+	errc := make(chan error, 1)
+	if wantRefused {
+		go func() { errc <- a.Run(context.Background()) }()
+	} else {
+		// positive control (the harness can see executions): the admitted graph is run by the real
+		// step scheduler. agent.Run is not used for it: on the pinned tree its end-of-run status
+		// writer races with historyStore.Close and can crash the process (see DESIGN.md, C08 notes).
+		go func() {
+			gr, gerr := scheduler.NewExecutionGraph(venv.Quiet, g.steps()...)
+			if gerr != nil {
+				errc <- gerr
+				return
+			}
+			sc := scheduler.New(&scheduler.Config{LogDir: c.env.Logs, Logger: venv.Quiet, ReqID: "pc"})
+			errc <- sc.Schedule(dag.NewContext(context.Background(), d, nil, "pc", ""), gr, nil)
+		}()
+	}
+	var err error
+	select {
+	case err = <-errc:
+	case <-time.After(60 * time.Second):
+		res.Violate("C14/agent-run/hang", fmt.Sprintf("graph %s: run did not return within 60 s", g), map[string]any{"graph": g, "agent": true})
+		return
+	}
 	ev := w.Snapshot()
-	after := venv.Files(c.env.Root)
+	after := venv.Files(c.env.Data)
 	_, sockErr := os.Stat(d.SockAddr())
-	wantErr := g.dangling >= 0 || g.refCyclic()
+	wantErr := g.Dangling >= 0 || g.refCyclic()
 	res.Nontrivial(vlib.Hash("agent", g.String()))
 	if wantErr {
 		bad := ""
@@ -238,6 +269,30 @@ func main() {
 	res := vlib.New("c14")
 	c := &checker{res: res, fl: fl, classes: map[string]int64{}}
 	c.env = venv.New(fl.Work + "/env")
+	if fl.Replay != "" {
+		var rp struct {
+			Replay struct {
+				Graph graph `json:"graph"`
+				Agent bool  `json:"agent"`
+			} `json:"replay"`
+		}
+		b, err := os.ReadFile(fl.Replay)
+		if err == nil {
+			err = json.Unmarshal(b, &rp)
+		}
+		if err != nil {
+			fmt.Fprintln(os.Stderr, "replay:", err)
+			os.Exit(2)
+		}
+		if rp.Replay.Agent {
+			c.agentRun(rp.Replay.Graph)
+		} else {
+			c.check(rp.Replay.Graph)
+		}
+		fmt.Fprintf(os.Stderr, "replayed %s: %d violation(s)\n", rp.Replay.Graph, len(res.Violations))
+		res.Write(fl.Out)
+		return
+	}
 
 	// (1) every digraph, self-loops included, on n <= 4 steps; with every step order for n <= 3;
 	//     plus one dangling name at every (step, position).
@@ -253,7 +308,7 @@ func main() {
 				adj[i] = m >> uint(i*n) & (1<<uint(n) - 1)
 			}
 			for _, o := range orders {
-				g := graph{n: n, adj: adj, order: o, dangling: -1, fam: "all-digraphs"}
+				g := graph{N: n, Adj: adj, Order: o, Dangling: -1, Fam: "all-digraphs"}
 				c.check(g)
 				if n <= 3 || (fl.Thorough() || m%7 == 0) {
 					for i := 0; i < n; i++ {
@@ -263,7 +318,7 @@ func main() {
 						}
 						for p := 0; p <= nd; p++ {
 							gd := g
-							gd.dangling, gd.dpos, gd.fam = i, p, "all-digraphs+dangling"
+							gd.Dangling, gd.Dpos, gd.Fam = i, p, "all-digraphs+dangling"
 							c.check(gd)
 						}
 					}
@@ -295,12 +350,12 @@ func main() {
 					bit++
 				}
 			}
-			g := graph{n: n, adj: adj, order: ident(n), dangling: -1, fam: "loopfree-5"}
+			g := graph{N: n, Adj: adj, Order: ident(n), Dangling: -1, Fam: "loopfree-5"}
 			c.check(g)
 			if fl.Thorough() {
 				for i := 0; i < n; i++ {
 					gd := g
-					gd.dangling, gd.dpos, gd.fam = i, 0, "loopfree-5+dangling"
+					gd.Dangling, gd.Dpos, gd.Fam = i, 0, "loopfree-5+dangling"
 					c.check(gd)
 				}
 			}
@@ -320,16 +375,16 @@ func main() {
 		for i := 1; i < n; i++ {
 			chain[i] = 1 << uint(i-1)
 		}
-		c.check(graph{n: n, adj: chain, order: ident(n), dangling: -1, fam: "chain"})
+		c.check(graph{N: n, Adj: chain, Order: ident(n), Dangling: -1, Fam: "chain"})
 		for i := 0; i < n; i++ {
-			c.check(graph{n: n, adj: chain, order: ident(n), dangling: i, dpos: 0, fam: "chain+dangling"})
+			c.check(graph{N: n, Adj: chain, Order: ident(n), Dangling: i, Dpos: 0, Fam: "chain+dangling"})
 		}
 		// chain + one back edge (lo depends on hi) for every pair
 		for lo := 0; lo < n; lo++ {
 			for hi := lo; hi < n; hi++ {
 				a := append([]uint64(nil), chain...)
 				a[lo] |= 1 << uint(hi)
-				c.check(graph{n: n, adj: a, order: ident(n), dangling: -1, fam: "chain+backedge"})
+				c.check(graph{N: n, Adj: a, Order: ident(n), Dangling: -1, Fam: "chain+backedge"})
 			}
 		}
 		// ring of size k on the first k nodes + tail hanging off it, for every k
@@ -341,13 +396,13 @@ func main() {
 			for i := k; i < n; i++ {
 				a[i] = 1 << uint(i-1)
 			}
-			c.check(graph{n: n, adj: a, order: ident(n), dangling: -1, fam: "ring+tail"})
+			c.check(graph{N: n, Adj: a, Order: ident(n), Dangling: -1, Fam: "ring+tail"})
 			// reversed listing order
 			rev := ident(n)
 			for i, j := 0, n-1; i < j; i, j = i+1, j-1 {
 				rev[i], rev[j] = rev[j], rev[i]
 			}
-			c.check(graph{n: n, adj: a, order: rev, dangling: -1, fam: "ring+tail/rev"})
+			c.check(graph{N: n, Adj: a, Order: rev, Dangling: -1, Fam: "ring+tail/rev"})
 		}
 		// two disjoint rings (sizes k and n-k)
 		for k := 2; k <= n-2; k++ {
@@ -358,7 +413,7 @@ func main() {
 			for i := k; i < n; i++ {
 				a[i] = 1 << uint(k+(i-k+1)%(n-k))
 			}
-			c.check(graph{n: n, adj: a, order: ident(n), dangling: -1, fam: "two-rings"})
+			c.check(graph{N: n, Adj: a, Order: ident(n), Dangling: -1, Fam: "two-rings"})
 		}
 		// layered DAG (width 3): every node depends on all nodes of the previous layer; + every single back edge
 		lay := mk()
@@ -368,12 +423,12 @@ func main() {
 				lay[i] |= 1 << uint(j)
 			}
 		}
-		c.check(graph{n: n, adj: lay, order: ident(n), dangling: -1, fam: "layered"})
+		c.check(graph{N: n, Adj: lay, Order: ident(n), Dangling: -1, Fam: "layered"})
 		for lo := 0; lo < n; lo++ {
 			for hi := lo + 1; hi < n; hi++ {
 				a := append([]uint64(nil), lay...)
 				a[lo] |= 1 << uint(hi)
-				c.check(graph{n: n, adj: a, order: ident(n), dangling: -1, fam: "layered+backedge"})
+				c.check(graph{N: n, Adj: a, Order: ident(n), Dangling: -1, Fam: "layered+backedge"})
 			}
 		}
 	}
@@ -387,7 +442,7 @@ func main() {
 			for i := 0; i < n; i++ {
 				adj[i] = m >> uint(i*n) & (1<<uint(n) - 1)
 			}
-			g := graph{n: n, adj: adj, order: ident(n), dangling: -1, fam: "agent"}
+			g := graph{N: n, Adj: adj, Order: ident(n), Dangling: -1, Fam: "agent"}
 			if g.refCyclic() {
 				c.agentRun(g)
 			} else if n <= 2 {
@@ -396,7 +451,7 @@ func main() {
 			if n <= 2 || m%5 == 0 {
 				for i := 0; i < n; i++ {
 					gd := g
-					gd.dangling = i
+					gd.Dangling = i
 					c.agentRun(gd)
 				}
 			}
